@@ -78,6 +78,19 @@ def rule_a(ctx, ix):
             ctx.ob(R, f.construct, 'the subset removed from the group is also detached from its dataset', ok,
                    detail='%s removes the subset from the group only: the removed dataset keeps the grouped subset, and gets a '
                           'second one for the same group when it is appended again' % f.construct, where=where(f, c))
+        for st in stores:
+            n += 1
+            # rebinding the member list drops members wholesale: every member must have been deleted, unconditionally, before
+            ok = False
+            for lp in [x for x in walk_no_nested(f.node) if isinstance(x, ast.For) and x.lineno < st.lineno]:
+                it = unparse(lp.iter).replace(' ', '')
+                if it in ('%s.subsets' % s, 'list(%s.subsets)' % s, 'tuple(%s.subsets)' % s) and isinstance(lp.target, ast.Name):
+                    ok = ok or any(isinstance(b, ast.Expr) and isinstance(b.value, ast.Call) and call_name(b.value) == 'delete'
+                                   and unparse(b.value.func.value) == lp.target.id for b in lp.body)
+            ctx.ob(R, f.construct + ' rebind', 'the member list is rebound only after every member was deleted from its dataset', ok,
+                   detail='%s rebinds the member list with `%s` without deleting the dropped members from their datasets: a removed '
+                          'dataset keeps the grouped subset (and gets a second one for the group when appended again), or the group '
+                          'lists subsets no dataset carries' % (f.construct, norm(st)), where=where(f, st))
     # the reverse direction: a grouped subset attached to a dataset must also be listed in the group
     for name, m in sorted(sg.members.items()):
         f = m.func
